@@ -237,9 +237,11 @@ class Parser:
 
         const_str = self._current_str()
         if len(const_str) > 0:
+            name_code = (OpCode.MOVEQ, const_str)
             self._add_instruction(OpCode.MOVEQ, const_str, Register.NAME)
             self.next_token()
         elif self._current_token.is_a(TokenTypes.NAME):
+            name_code = (OpCode.MOVE, str(self._current_token))
             if not self._var_operand():
                 return False
         else:
@@ -265,6 +267,10 @@ class Parser:
             if not MatrixParser(self).matrix_spec():
                 return False
             operand = Operand.MATRIX_LIGHT
+            # What the block (or a routine called for a row or column
+            # value) did may have named other lights: the command is still
+            # for this one.
+            self._add_instruction(name_code[0], name_code[1], Register.NAME)
 
         self._add_instruction(OpCode.MOVEQ, operand, Register.OPERAND)
         return True
